@@ -12,6 +12,7 @@ CONSTANTS
  Msgs <- MCMsgs
  Subject <- MCSubject
  MaxCommits = 1
+ FreshContent = "c1"
  Want = {"ALL"}
  ArgLists <- MCArgLists
  Cmds <- MCCmds
